@@ -29,7 +29,7 @@ Section Termination.
       + split; [discriminate|lia].
       + destruct (c =? ATT_NOT_FOUND); [|destruct raise_other]; cbn [fst snd]; (split; [discriminate|lia]).
       + destruct es as [|e es]; cbn [fst snd]; [split; [discriminate|lia]|].
-        destruct (proc start (e :: es)) as [| |a|a s'] eqn:P; cbn [fst snd];
+        destruct (proc start (e :: es)) as [|c|a|a s'] eqn:P; cbn [fst snd];
           try (split; [discriminate|lia]).
         assert (start < s') by (eapply proc_progress; [|exact P]; discriminate).
         destruct (IH (S n) s' (acc ++ a)) as [H1 H2]; [lia|].
@@ -118,11 +118,44 @@ Proof.
   split; [exact H1|lia].
 Qed.
 
-Lemma discover_included_terminates : forall r sh se, 0 <= sh -> se <= 0xFFFF ->
-  finishes (discover_included (fuel_for sh) r sh se) 65536.
+Lemma proc_included_progress rd start : forall es acc lh a s',
+  start <= lh -> proc_included rd start es acc lh = Next a s' -> start < s'.
 Proof.
-  intros r sh se H0 He. unfold discover_included, finishes.
-  destruct (plain_loop_terminates true r se sh He) as [H1 H2]. split; [exact H1|lia].
+  induction es as [|e es IH]; intros acc lh a s' Hle H; cbn [proc_included] in H.
+  - inversion H. lia.
+  - destruct (e_h e <? start) eqn:B; [discriminate|].
+    destruct (e_bad e); [discriminate|].
+    destruct (e_data e) as [|s [|en [|x t]]].
+    + eapply IH; [|exact H]. lia.
+    + eapply IH; [|exact H]. lia.
+    + destruct (rd s) as [|c|l i]; try discriminate.
+      destruct (uuid_len_ok l); [|discriminate]. eapply IH; [|exact H]. lia.
+    + eapply IH; [|exact H]. lia.
+Qed.
+
+Lemma proc_included_progress0 rd start es a s' :
+  es <> [] -> proc_included rd start es [] 0 = Next a s' -> start < s'.
+Proof.
+  destruct es as [|e es]; [congruence|]. intros _ H. cbn [proc_included] in H.
+  destruct (e_h e <? start) eqn:B; [discriminate|].
+  destruct (e_bad e); [discriminate|].
+  destruct (e_data e) as [|s [|en [|x t]]].
+  - eapply proc_included_progress; [|exact H]. lia.
+  - eapply proc_included_progress; [|exact H]. lia.
+  - destruct (rd s) as [|c|l i]; try discriminate.
+    destruct (uuid_len_ok l); [|discriminate]. eapply proc_included_progress; [|exact H]. lia.
+  - eapply proc_included_progress; [|exact H]. lia.
+Qed.
+
+(* for every peer AND every way the nested reads of service declarations are answered *)
+Lemma discover_included_terminates : forall r rd sh se, 0 <= sh -> se <= 0xFFFF ->
+  finishes (discover_included (fuel_for sh) r rd sh se) 65536.
+Proof.
+  intros r rd sh se H0 He. unfold discover_included, finishes, fuel_for.
+  destruct (loop_terminates (cond_le se) (fun s es => proc_included rd s es [] 0) true r
+              (fun s => cond_le_bound se s He) (fun s es a s' => proc_included_progress0 rd s es a s')
+              (Z.to_nat (0x10000 - sh)) 0%nat sh []) as [H1 H2]; [lia|].
+  split; [exact H1|lia].
 Qed.
 
 Lemma discover_characteristics_terminates : forall r sh se, 0 <= sh -> se <= 0xFFFF ->
@@ -604,29 +637,178 @@ Proof.
   rewrite (fix_ends_id se _ Hc). reflexivity.
 Qed.
 
+(* --- included services: the client resolves UUID-less declarations with nested reads *)
+Section ExactTr.
+  Variable tr : entry -> entry.
+  Variable cond : Z -> bool.
+  Variable proc : Z -> list entry -> step_res.
+  Variable raise_other : bool.
+  Variable r : nat -> Z -> resp.
+  Variable L : list entry.
+  Variable s0 : Z.
+  Variable clean : entry -> bool.
+
+  Hypothesis Lclean : forallb clean L = true.
+  Hypothesis proc_ok : forall start p d, p <> [] -> chainG e_h e_h start p = true ->
+    forallb clean p = true -> proc start p = Next (map tr p) (e_h (last p d) + 1).
+  Hypothesis srv : forall n s, s0 <= s -> cond s = true ->
+    exists p q, filter (fun e => s <=? e_h e) L = p ++ q /\ (p = [] -> q = []) /\
+                r n s = match p with [] => RErr ATT_NOT_FOUND | _ => RList p end.
+  Hypothesis cond_end : forall s, s0 <= s -> cond s = false -> filter (fun e => s <=? e_h e) L = [].
+
+  Lemma loop_exact_tr_inv : forall fuel n start accr R,
+    s0 <= start -> L = accr ++ R -> Forall (fun e => e_h e < start) accr ->
+    chainG e_h e_h start R = true ->
+    fst (loop cond proc raise_other r fuel n start (map tr accr)) = OutOfFuel \/
+    fst (loop cond proc raise_other r fuel n start (map tr accr)) = Done (map tr L).
+  Proof.
+    induction fuel as [|f IH]; intros n start accr R Hs HL Hacc Hch.
+    - cbn [loop]. destruct (cond start) eqn:C; cbn [negb fst]; [now left|]. right.
+      assert (HR : filter (fun e => start <=? e_h e) L = R).
+      { rewrite HL, filter_app, filter_all_false, filter_all_true; [reflexivity| |].
+        - eapply Forall_impl; [|apply (chain_all_ge _ _ _ _ Hch)]. cbn. intros. lia.
+        - eapply Forall_impl; [|exact Hacc]. cbn. intros. lia. }
+      rewrite (cond_end _ Hs C) in HR. subst R. rewrite app_nil_r in HL. congruence.
+    - assert (HR : filter (fun e => start <=? e_h e) L = R).
+      { rewrite HL, filter_app, filter_all_false, filter_all_true; [reflexivity| |].
+        - eapply Forall_impl; [|apply (chain_all_ge _ _ _ _ Hch)]. cbn. intros. lia.
+        - eapply Forall_impl; [|exact Hacc]. cbn. intros. lia. }
+      cbn [loop]. destruct (cond start) eqn:C; cbn [negb].
+      + destruct (srv n start Hs C) as [p [q [Hpq [Hnil Hr]]]]. rewrite Hr.
+        destruct p as [|e p].
+        * right. rewrite (Hnil eq_refl) in Hpq. cbn in Hpq. rewrite Hpq in HR. subst R.
+          rewrite app_nil_r in HL. cbn. congruence.
+        * rewrite HR in Hpq. clear HR. subst R.
+          assert (Hcl : forallb clean (e :: p) = true).
+          { rewrite HL in Lclean. rewrite !forallb_app in Lclean.
+            apply andb_prop in Lclean. destruct Lclean as [_ H2].
+            apply andb_prop in H2. tauto. }
+          rewrite (proc_ok start (e :: p) e ltac:(discriminate) (chain_app_l _ _ _ _ _ Hch) Hcl).
+          destruct (chain_app_r e_h e_h (e :: p) q start e ltac:(discriminate) Hch) as [C1 [C2 C3]].
+          rewrite <- map_app.
+          apply (IH (S n) (e_h (last (e :: p) e) + 1) (accr ++ e :: p) q).
+          -- lia.
+          -- rewrite <- app_assoc. exact HL.
+          -- apply Forall_app. split.
+             ++ eapply Forall_impl; [|exact Hacc]. intros x Hx. cbv beta in Hx |- *. lia.
+             ++ eapply Forall_impl; [|exact C3]. intros x Hx. cbv beta in Hx |- *. lia.
+          -- exact C1.
+      + right. rewrite (cond_end _ Hs C) in HR. subst R. rewrite app_nil_r in HL. cbn. congruence.
+  Qed.
+End ExactTr.
+
+Definition resolvable (rd : Z -> uresp) (e : entry) : bool :=
+  andb (negb (e_bad e))
+       (match e_data e with
+        | [s; _] => match rd s with UVal l _ => uuid_len_ok l | _ => false end
+        | _ => true
+        end).
+
+Lemma proc_included_ok rd start : forall p acc lh d,
+  Forall (fun e => start <= e_h e) p -> forallb (resolvable rd) p = true ->
+  proc_included rd start p acc lh
+  = Next (acc ++ map (resolve_entry rd) p) (match p with [] => lh | _ => e_h (last p d) end + 1).
+Proof.
+  induction p as [|e p IH]; intros acc lh d F C; cbn [proc_included map].
+  - now rewrite app_nil_r.
+  - inversion F; subst. cbn [forallb] in C. apply andb_prop in C. destruct C as [C1 C2].
+    unfold resolvable in C1. apply andb_prop in C1. destruct C1 as [C1a C1b].
+    assert (B : (e_h e <? start) = false) by lia. rewrite B.
+    destruct (e_bad e); [discriminate|].
+    assert (Hl : match (e :: p) with [] => lh | _ => e_h (last (e :: p) d) end
+                 = match p with [] => e_h e | _ => e_h (last p d) end) by (destruct p; reflexivity).
+    rewrite Hl. unfold resolve_entry at 1.
+    destruct (e_data e) as [|s [|en [|x t]]].
+    + rewrite (IH (acc ++ [e]) (e_h e) d H2 C2), <- app_assoc. reflexivity.
+    + rewrite (IH (acc ++ [e]) (e_h e) d H2 C2), <- app_assoc. reflexivity.
+    + destruct (rd s) as [|c|l i]; try discriminate. rewrite C1b.
+      rewrite (IH _ (e_h e) d H2 C2), <- app_assoc. reflexivity.
+    + rewrite (IH (acc ++ [e]) (e_h e) d H2 C2), <- app_assoc. reflexivity.
+Qed.
+
 Definition includes_of (db : list attr) (sh se : Z) : list attr :=
   filter (fun a => andb (is_type UUID_INCLUDE a) (in_range sh se a)) db.
 
+(* exact, as the client resolves them *)
 Theorem discover_included_exact : forall db mtu sh se,
   23 <= mtu -> 1 <= sh -> se <= 0xFFFF ->
   db_sorted db = true -> decl_sizes_ok db = true ->
-  fst (client_discover_included mtu db sh se) = Done (map to_entry (includes_of db sh se)).
+  forallb (resolvable (srv_read_uuid db)) (map to_entry (includes_of db sh se)) = true ->
+  fst (client_discover_included mtu db sh se)
+  = Done (map (resolve_entry (srv_read_uuid db)) (map to_entry (includes_of db sh se))).
 Proof.
-  intros db mtu sh se Hm Hsh Hse Hs Hd.
+  intros db mtu sh se Hm Hsh Hse Hs Hd Hres.
   apply andb_prop in Hs. destruct Hs as [Hs _].
   unfold client_discover_included, discover_included.
-  exact (plain_exact true (fun _ s => srv_read_by_type mtu db UUID_INCLUDE s se) db
-           (is_type UUID_INCLUDE) se sh to_entry (fun a => eq_refl) (fun a => eq_refl) Hse Hs
-           (read_by_type_srv db mtu UUID_INCLUDE sh se Hm Hsh Hd eq_refl)).
+  set (rd := srv_read_uuid db) in *.
+  set (r := fun (_ : nat) s => srv_read_by_type mtu db UUID_INCLUDE s se).
+  destruct (loop_terminates (cond_le se) (fun s es => proc_included rd s es [] 0) true r
+              (fun s => cond_le_bound se s Hse) (fun s es a s' => proc_included_progress0 rd s es a s')
+              (fuel_for sh) 0%nat sh []) as [T _]; [unfold fuel_for; lia|].
+  assert (X : fst (loop (cond_le se) (fun s es => proc_included rd s es [] 0) true r (fuel_for sh) 0 sh
+                     (map (resolve_entry rd) [])) = OutOfFuel \/
+              fst (loop (cond_le se) (fun s es => proc_included rd s es [] 0) true r (fuel_for sh) 0 sh
+                     (map (resolve_entry rd) []))
+              = Done (map (resolve_entry rd) (map to_entry (cands db (is_type UUID_INCLUDE) se sh)))).
+  { apply (loop_exact_tr_inv (resolve_entry rd) (cond_le se) (fun s es => proc_included rd s es [] 0) true r
+             (map to_entry (cands db (is_type UUID_INCLUDE) se sh)) sh (resolvable rd)) with
+        (R := map to_entry (cands db (is_type UUID_INCLUDE) se sh)); [exact Hres| | | | | | |].
+    - intros start p d Hp Hc Hcl.
+      rewrite (proc_included_ok rd start p [] 0 d (chain_all_ge _ _ _ _ Hc) Hcl).
+      destruct p; [congruence|reflexivity].
+    - intros n s Hs0 C. unfold r.
+      apply (read_by_type_srv db mtu UUID_INCLUDE sh se Hm Hsh Hd eq_refl n s Hs0).
+      unfold cond_le in C. lia.
+    - intros s Hs0 C. unfold cond_le in C. apply filter_all_false. apply Forall_forall.
+      intros e He'. apply in_map_iff in He'. destruct He' as [a [<- Ha]]. cbn [to_entry e_h].
+      apply cands_in in Ha. lia.
+    - lia.
+    - reflexivity.
+    - constructor.
+    - rewrite chain_map. cbn [to_entry e_h]. apply cands_chain. apply chain_filter. exact Hs.
+  }
+  cbn [map] in X. destruct X as [O|D]; [contradiction|exact D].
 Qed.
 
-(* what the client makes of an include declaration is the declared service exactly when the
-   included service's UUID is a 16-bit one (finding D12e) *)
-Lemma included_uuid16_exact : forall u, u_len u = 2 -> 0 <= u_id u < 65536 -> incl_seen_uuid u = u.
-Proof. intros [l i] Hl Hi. cbn in *. subst l. unfold incl_seen_uuid. cbn. f_equal. now apply Z.mod_small. Qed.
 
-Lemma included_uuid128_refuted : exists u, u_len u = 16 /\ incl_seen_uuid u <> u.
-Proof. exists (mkU 16 (2 ^ 127 + 5)). split; [reflexivity|]. vm_compute. discriminate. Qed.
+Lemma consistent_resolves db : includes_consistent db = true ->
+  forall a, In a db -> is_type UUID_INCLUDE a = true ->
+  resolvable (srv_read_uuid db) (to_entry a) = true /\
+  resolve_entry (srv_read_uuid db) (to_entry a) = declared_include a.
+Proof.
+  intros Hc a Ha Ht. pose proof (forallb_In _ _ _ Hc Ha) as H. cbv beta in H.
+  unfold is_type in Ht. rewrite Ht in H.
+  unfold resolvable, resolve_entry, declared_include, to_entry. cbn [e_bad e_data e_h e_end negb andb].
+  destruct (a_body a) as [u|s e u|p vh u|v|] eqn:B; try discriminate.
+  apply andb_prop in H. destruct H as [Hu Hf]. unfold disc_data. rewrite B.
+  destruct (u_len u =? 2) eqn:E2.
+  - split; [reflexivity|]. f_equal. f_equal. f_equal. f_equal. lia.
+  - unfold srv_read_uuid.
+    destruct (find (fun b => a_handle b =? s) db) as [b|]; [|discriminate].
+    destruct (a_body b) as [u'| | | |]; try discriminate.
+    unfold uuid_eqb in Hf. apply andb_prop in Hf. destruct Hf as [Hl Hi].
+    assert (El : u_len u' = u_len u) by lia. assert (Ei : u_id u' = u_id u) by lia.
+    rewrite El, Ei. split.
+    + unfold uuid_len_ok. lia.
+    + reflexivity.
+Qed.
+
+(* exact, as declared: start handle, end handle and UUID of every included service *)
+Theorem discover_included_exact_declared : forall db mtu sh se,
+  23 <= mtu -> 1 <= sh -> se <= 0xFFFF ->
+  db_sorted db = true -> decl_sizes_ok db = true -> includes_consistent db = true ->
+  fst (client_discover_included mtu db sh se) = Done (map declared_include (includes_of db sh se)).
+Proof.
+  intros db mtu sh se Hm Hsh Hse Hs Hd Hc.
+  assert (Hall : forall a, In a (includes_of db sh se) -> In a db /\ is_type UUID_INCLUDE a = true).
+  { intros a Ha. unfold includes_of in Ha. apply filter_In in Ha. destruct Ha as [Hin Hp].
+    apply andb_prop in Hp. tauto. }
+  rewrite discover_included_exact; try assumption.
+  - f_equal. rewrite map_map. apply map_ext_in. intros a Ha. destruct (Hall a Ha) as [Hin Ht].
+    exact (proj2 (consistent_resolves db Hc a Hin Ht)).
+  - apply forallb_forall. intros e He. apply in_map_iff in He. destruct He as [a [<- Ha]].
+    destruct (Hall a Ha) as [Hin Ht]. exact (proj1 (consistent_resolves db Hc a Hin Ht)).
+Qed.
 
 (* the Find Information server *)
 Lemma find_information_srv db mtu sh se :
@@ -1145,7 +1327,8 @@ Qed.
 Lemma incl_attrs_aok r : forall is_ h, forallb aok (incl_attrs h r is_) = true.
 Proof.
   induction is_ as [|i is_ IH]; intros h; cbn [incl_attrs]; [reflexivity|].
-  destruct (nth i r (0, 0, U16 0)) as [[s e] u]. cbn [forallb]. rewrite IH. reflexivity.
+  destruct (nth i r (0, 0, U16 0)) as [[s e] u]. cbn [forallb]. rewrite IH.
+  unfold aok, dsz, tok, is_type. cbn -[Z.add Z.leb Z.sub Z.eqb]. destruct (u_len u =? 2); reflexivity.
 Qed.
 
 Lemma svc_attrs_aok s h r : svc_ok s = true -> forallb aok (svc_attrs h r s) = true.
@@ -1387,6 +1570,123 @@ Proof.
     + eapply Forall_impl; [|exact Rb]. intros a Ha. cbv beta in Ha |- *. lia.
 Qed.
 
+
+(* ================================================================== add_service: include declarations are consistent *)
+Definition incl_pred (db : list attr) (a : attr) : bool :=
+  if uuid_eqb (a_type a) UUID_INCLUDE then
+    match a_body a with
+    | BInclude s _ u =>
+        andb (orb (u_len u =? 2) (u_len u =? 16))
+             (match find (fun b => a_handle b =? s) db with
+              | Some b => match a_body b with BService u' => uuid_eqb u' u | _ => false end
+              | None => false
+              end)
+    | _ => false
+    end
+  else true.
+
+Lemma find_app {A} (f : A -> bool) l1 l2 :
+  find f (l1 ++ l2) = match find f l1 with Some x => Some x | None => find f l2 end.
+Proof. induction l1 as [|x l1 IH]; cbn; [reflexivity|]. destruct (f x); [reflexivity|exact IH]. Qed.
+
+Lemma find_none_lt (h : Z) l : Forall (fun a => a_handle a < h) l -> find (fun b => a_handle b =? h) l = None.
+Proof.
+  induction 1 as [|x l Hx _ IH]; cbn; [reflexivity|].
+  assert (E : (a_handle x =? h) = false) by lia. now rewrite E.
+Qed.
+
+(* a registered service (h, e, u) is found in the attributes laid out so far *)
+Definition reg_found (pre : list attr) (r : reg) : Prop :=
+  forall i, (i < length r)%nat ->
+    let '(h, e, u) := nth i r (0, 0, U16 0) in
+    uuid_ok u = true /\
+    exists b, find (fun b => a_handle b =? h) pre = Some b /\ a_body b = BService u.
+
+Lemma not_incl_type_plain h e u b db : negb (is_decl_type u) = true -> incl_pred db (mkA h e u b) = true.
+Proof.
+  intros Hn. destruct (not_decl_types u Hn) as [_ [_ [I _]]]. unfold incl_pred. cbn [a_type]. now rewrite I.
+Qed.
+
+Lemma desc_attrs_incl db : forall ds h, forallb desc_ok ds = true -> forallb (incl_pred db) (desc_attrs h ds) = true.
+Proof.
+  induction ds as [|d ds IH]; intros h H; cbn [desc_attrs forallb] in *; [reflexivity|].
+  apply andb_prop in H. destruct H as [H1 H2]. unfold desc_ok in H1. apply andb_prop in H1. destruct H1.
+  rewrite not_incl_type_plain by assumption. now apply IH.
+Qed.
+
+Lemma chars_attrs_incl db : forall cs h, forallb char_ok cs = true -> forallb (incl_pred db) (chars_attrs h cs) = true.
+Proof.
+  induction cs as [|c cs IH]; intros h H; cbn [chars_attrs forallb] in *; [reflexivity|].
+  apply andb_prop in H. destruct H as [H1 H2]. rewrite forallb_app, (IH _ H2), andb_true_r.
+  unfold char_ok in H1. apply andb_prop in H1. destruct H1 as [H1 H3]. apply andb_prop in H1. destruct H1 as [H1 H1b].
+  unfold char_attrs. cbn [forallb]. rewrite forallb_app, desc_attrs_incl by assumption.
+  rewrite (not_incl_type_plain _ _ (c_uuid c)) by assumption.
+  destruct (needs_cccd c); reflexivity.
+Qed.
+
+Lemma incl_attrs_incl db pre r : reg_found pre r ->
+  (forall h, (exists b, find (fun b => a_handle b =? h) pre = Some b) ->
+             find (fun b => a_handle b =? h) db = find (fun b => a_handle b =? h) pre) ->
+  forall is_ h, forallb (fun i => Nat.ltb i (length r)) is_ = true ->
+  forallb (incl_pred db) (incl_attrs h r is_) = true.
+Proof.
+  intros Hreg Hdb. induction is_ as [|i is_ IH]; intros h Hi; cbn [incl_attrs forallb] in *; [reflexivity|].
+  apply andb_prop in Hi. destruct Hi as [Hi1 Hi2]. apply Nat.ltb_lt in Hi1.
+  specialize (Hreg i Hi1). destruct (nth i r (0, 0, U16 0)) as [[s e] u]. destruct Hreg as [Hu [b [Hf Hb]]].
+  cbn [forallb]. rewrite (IH _ Hi2), andb_true_r.
+  unfold incl_pred. cbn [a_type a_body]. replace (uuid_eqb UUID_INCLUDE UUID_INCLUDE) with true by reflexivity.
+  rewrite (Hdb s (ex_intro _ b Hf)), Hf, Hb.
+  unfold uuid_ok in Hu. rewrite Hu. cbn [andb]. unfold uuid_eqb. lia.
+Qed.
+
+Lemma build_incl : forall ss h0 r pre post,
+  Forall (fun a => a_handle a < h0) pre -> reg_found pre r ->
+  specs_ok ss = true -> incl_idx_ok (length r) ss = true ->
+  forallb (incl_pred (pre ++ build_from h0 r ss ++ post)) (build_from h0 r ss) = true.
+Proof.
+  induction ss as [|s ss IH]; intros h0 r pre post Hpre Hreg Hs Hi; [reflexivity|].
+  cbn [build_from specs_ok forallb incl_idx_ok] in *.
+  apply andb_prop in Hs. destruct Hs as [Hs1 Hs2]. apply andb_prop in Hi. destruct Hi as [Hi1 Hi2].
+  set (blk := svc_attrs h0 r s) in *.
+  set (r' := r ++ [(h0, h0 + svc_size s - 1, s_uuid s)]) in *.
+  set (rest := build_from (h0 + svc_size s) r' ss) in *.
+  set (db := pre ++ (blk ++ rest) ++ post).
+  assert (Hdb : forall h, (exists b, find (fun b => a_handle b =? h) pre = Some b) ->
+                find (fun b => a_handle b =? h) db = find (fun b => a_handle b =? h) pre).
+  { intros h [b Hb]. unfold db. now rewrite find_app, Hb. }
+  pose proof Hs1 as Hs1'. unfold svc_ok in Hs1'. apply andb_prop in Hs1'. destruct Hs1' as [Hsu Hsc].
+  rewrite forallb_app. apply andb_true_intro. split.
+  - unfold blk. rewrite svc_attrs_split. cbn [forallb]. rewrite forallb_app.
+    rewrite (incl_attrs_incl db pre r Hreg Hdb _ _ Hi1), (chars_attrs_incl db _ _ Hsc).
+    unfold incl_pred, head_attr. cbn [a_type]. destruct (s_primary s); reflexivity.
+  - unfold db. replace (pre ++ (blk ++ rest) ++ post) with ((pre ++ blk) ++ rest ++ post)
+      by (now rewrite <- !app_assoc).
+    pose proof (consec_range _ _ (svc_attrs_consec s h0 r)) as Rb. rewrite svc_attrs_len in Rb. fold blk in Rb.
+    apply IH.
+    + apply Forall_app. split.
+      * eapply Forall_impl; [|exact Hpre]. intros a Ha. cbv beta in Ha |- *. pose proof (svc_size_pos s). lia.
+      * eapply Forall_impl; [|exact Rb]. intros a Ha. cbv beta in Ha |- *. lia.
+    + intros i Hlt. unfold r' in *. rewrite app_length in Hlt. cbn [length] in Hlt.
+      destruct (Nat.lt_ge_cases i (length r)) as [Hl|Hg].
+      * rewrite app_nth1 by exact Hl. specialize (Hreg i Hl).
+        destruct (nth i r (0, 0, U16 0)) as [[h e] u]. destruct Hreg as [Hu [b [Hf Hb]]].
+        split; [exact Hu|]. exists b. split; [|exact Hb]. now rewrite find_app, Hf.
+      * assert (i = length r) by lia. subst i. rewrite app_nth2 by lia. rewrite Nat.sub_diag. cbn [nth].
+        split; [exact Hsu|]. exists (head_attr h0 s). split; [|reflexivity].
+        rewrite find_app, (find_none_lt h0 pre Hpre). unfold blk. rewrite svc_attrs_split. cbn [find head_attr a_handle].
+        now rewrite Z.eqb_refl.
+    + exact Hs2.
+    + unfold r'. rewrite app_length. cbn [length]. rewrite Nat.add_1_r. exact Hi2.
+Qed.
+
+Theorem build_includes_consistent : forall ss, specs_ok ss = true -> incl_idx_ok 0 ss = true ->
+  includes_consistent (build ss) = true.
+Proof.
+  intros ss Hs Hi. unfold includes_consistent, build.
+  pose proof (build_incl ss 1 [] [] [] (Forall_nil _) (fun i Hlt => ltac:(cbn in Hlt; lia)) Hs Hi) as H.
+  cbn [app] in H. rewrite app_nil_r in H. exact H.
+Qed.
+
 (* every database add_services builds is well-formed *)
 Theorem build_wf : forall ss, specs_ok ss = true -> total_size ss <= 0xFFFE -> db_wf (build ss) = true.
 Proof.
@@ -1540,14 +1840,15 @@ Qed.
    the whole attribute table. *)
 Definition chardecls_of (db : list attr) (s : attr) : list attr := chars_of db (a_handle s) (a_end s).
 
-Theorem client_sees_database : forall ss mtu, 23 <= mtu -> specs_ok ss = true -> total_size ss <= 0xFFFE ->
+Theorem client_sees_database : forall ss mtu, 23 <= mtu -> specs_ok ss = true -> incl_idx_ok 0 ss = true ->
+  total_size ss <= 0xFFFE ->
   let db := build ss in
   fst (client_discover_services mtu db) = Done (map to_entry (primary_services db)) /\
   fst (client_discover_attributes mtu db) = Done (map info_entry db) /\
   (forall u, fst (client_discover_service mtu db u) = Done (map to_entry (services_with db u))) /\
   (forall s, In s (primary_services db) ->
      fst (client_discover_included mtu db (a_handle s) (a_end s))
-       = Done (map to_entry (includes_of db (a_handle s) (a_end s))) /\
+       = Done (map declared_include (includes_of db (a_handle s) (a_end s))) /\
      fst (client_discover_characteristics mtu db (a_handle s) (a_end s))
        = Done (map to_entry (chardecls_of db s)) /\
      (forall us, fst (discover_characteristics_uuids (fuel_for (a_handle s))
@@ -1558,7 +1859,8 @@ Theorem client_sees_database : forall ss mtu, 23 <= mtu -> specs_ok ss = true ->
   (forall vh ce, 0 <= vh -> ce <= 0xFFFF ->
      fst (client_discover_descriptors mtu db vh ce) = Done (map info_entry (attrs_in db (vh + 1) ce))).
 Proof.
-  intros ss mtu Hm Hs Ht db.
+  intros ss mtu Hm Hs Hidx Ht db.
+  pose proof (build_includes_consistent ss Hs Hidx) as Wincl. fold db in Wincl.
   pose proof (build_wf ss Hs Ht) as W. fold db in W. unfold db_wf in W.
   apply andb_prop in W. destruct W as [W1 W2]. apply andb_prop in W1. destruct W1 as [Wsorted Wsvc].
   apply andb_prop in W2. destruct W2 as [W2 Wends]. apply andb_prop in W2. destruct W2 as [Wsz Wty].
@@ -1577,7 +1879,7 @@ Proof.
   { refine (forallb_In _ _ s Wends _). unfold primary_services in Hin. apply filter_In in Hin.
     apply filter_In. split; [tauto|]. destruct Hin as [_ Hty]. now rewrite Hty. }
   pose proof (discover_characteristics_exact db mtu (a_handle s) (a_end s) Hm Hlo Hhi Wsorted Wsz Hce) as Hch.
-  split; [apply discover_included_exact; assumption|].
+  split; [apply discover_included_exact_declared; assumption|].
   split; [exact Hch|].
   split.
   - intros us. rewrite discover_characteristics_uuids_spec.
